@@ -578,8 +578,60 @@ macro_rules! families_for {
             grow_impl!(@reserve_exact yes);
             grow_impl!(@shrink_to no);
         }
+
+        // the same two exclusive-borrow vectors over a trait-object allocator
+        impl<'r, 'b> VecCore<$E> for MutBumpVec<$E, DynMut<'r, 'b>> {
+            core_common!($E, "MutBumpVec(dyn)");
+            fn capacity(&self) -> Option<usize> {
+                Some(Self::capacity(self))
+            }
+            fn anchor(&self) -> usize {
+                self.as_non_null().addr().get()
+            }
+            fn filter(&mut self) -> Option<&mut dyn VecFilter<$E>> {
+                Some(self)
+            }
+            fn grow(&mut self) -> Option<&mut dyn VecGrow<$E>> {
+                Some(self)
+            }
+            positions_impl!();
+        }
+        impl<'r, 'b> VecFilter<$E> for MutBumpVec<$E, DynMut<'r, 'b>> {
+            filter_impl!($E);
+        }
+        impl<'r, 'b> VecGrow<$E> for MutBumpVec<$E, DynMut<'r, 'b>> {
+            grow_impl!($E, $cc, yes, no);
+            grow_impl!(@spare fwd, $E);
+            grow_impl!(@reserve_exact yes);
+            grow_impl!(@shrink_to no);
+        }
+        impl<'r, 'b> VecCore<$E> for MutBumpVecRev<$E, DynMut<'r, 'b>> {
+            core_common!($E, "MutBumpVecRev(dyn)");
+            fn is_rev(&self) -> bool {
+                true
+            }
+            fn capacity(&self) -> Option<usize> {
+                Some(Self::capacity(self))
+            }
+            fn anchor(&self) -> usize {
+                self.as_non_null().addr().get() + self.as_slice().len() * size_of::<$E>()
+            }
+            fn grow(&mut self) -> Option<&mut dyn VecGrow<$E>> {
+                Some(self)
+            }
+            positions_impl!();
+        }
+        impl<'r, 'b> VecGrow<$E> for MutBumpVecRev<$E, DynMut<'r, 'b>> {
+            grow_impl!($E, $cc, yes, no);
+            grow_impl!(@spare rev, $E);
+            grow_impl!(@reserve_exact yes);
+            grow_impl!(@shrink_to no);
+        }
     };
 }
+
+/// `&mut dyn MutBumpAllocatorCoreScope`: the trait-object allocator of the exclusive-borrow collections
+pub type DynMut<'r, 'b> = &'r mut (dyn bump_scope::traits::MutBumpAllocatorCoreScope<'b> + 'r);
 
 families_for!(u8, copy);
 families_for!(u32, copy);
